@@ -184,6 +184,17 @@ type HostS struct {
 	F64 float64
 	Str string
 	B   bool
+	Sub *HostSub // receiver of three-level calls; not part of the compared state
+}
+
+type HostSub struct{}
+
+// Mark records an observable event (three-level call S.Sub.Mark(x), used inside conc blocks)
+func (s *HostSub) Mark(x int64) {
+	if curHost != nil {
+		time.Sleep(100 * time.Microsecond)
+		curHost.rec("mark", x)
+	}
 }
 
 func (s *HostS) Echo32(x int32) int32 { return x }
@@ -275,7 +286,7 @@ func (h *hostEnv) injectStruct() {
 		}
 		fs = append(fs, [2]interface{}{f, z})
 	}
-	obj := &HostS{}
+	obj := &HostS{Sub: &HostSub{}}
 	h.specs = append(h.specs, ObjSpec{Name: "ls", Type: "struct", Ptr: true, Fields: fs})
 	h.objs["ls"] = obj
 	if h.dc != nil {
@@ -316,6 +327,17 @@ func (h *hostEnv) funcValue(id string) interface{} {
 		return func(s string) { h.rec("obsS", s) }
 	case "obsC":
 		return func(x int64) { time.Sleep(150 * time.Microsecond); h.rec("obsC", x) }
+	case "bump":
+		return func() int64 {
+			h.mu.Lock()
+			defer h.mu.Unlock()
+			p, ok := h.objs["p_int64"].(*int64)
+			if !ok {
+				panic("bump: p_int64 is not injected as *int64")
+			}
+			*p++
+			return *p
+		}
 	case "inj":
 		return func() { h.inject() }
 	case "injS":
@@ -390,7 +412,7 @@ func (h *hostEnv) materialise() {
 			p.Elem().Set(v)
 			h.objs[sp.Name] = p.Interface()
 		case "struct":
-			s := &HostS{}
+			s := &HostS{Sub: &HostSub{}}
 			sv := reflect.ValueOf(s).Elem()
 			for _, f := range sp.Fields {
 				name := f[0].(string)
@@ -548,7 +570,7 @@ func genHostEnv(r *rng) *hostEnv {
 	add(ObjSpec{Name: "AU", Type: "slice", Ptr: true, ElemK: "uint8", Elems: els("uint8", 2)})
 	add(ObjSpec{Name: "ARR", Type: "slice", Ptr: true, IsArray: true, ElemK: "int16", Elems: els("int16", 3)})
 	add(ObjSpec{Name: "AS", Type: "slice", Ptr: false, ElemK: "string", Elems: els("string", 2)})
-	for _, f := range []string{"obs", "obsS", "cat", "boom", "neg", "sum3", "obsC", "inj", "injS"} {
+	for _, f := range []string{"obs", "obsS", "cat", "boom", "neg", "sum3", "obsC", "inj", "injS", "bump"} {
 		add(ObjSpec{Name: f, Type: "func", Func: f})
 	}
 	for _, k := range append(append([]string{}, numKinds...), "string", "bool") {
